@@ -160,7 +160,7 @@ def step (st : St) (ts : List String) : St × String :=
         | s => s
       let wrappedTop := false
       let sp := if (match sp0 with | .wrap _ => true | _ => false) && !path.isEmpty then strip sp0 else sp0
-      if !validPath sp path || hasWrappedCompound sp then none else
+      if !validPath sp path then none else
       -- a wrapper as the sampled subspace has no common substate names with its parent (OMPL: "Sampling will have
       -- no effect"); not modelled, rejected on both sides
       if (match subAt sp path with | .wrap _ => true | _ => false) then none else
